@@ -485,6 +485,13 @@ def template_loop_shape(ctx, rule, repo, kind):
                 if len(names) == 4 and isinstance(c, ast.Call) and isinstance(c.func, ast.Name) and c.func.id in names:
                     return dict(template=t, assign=body[0], stmt=s, call=c, names=names,
                                 callee_pos=names.index(c.func.id), name_pos=names.index(nv) if nv in names else None)
+            comp_bind = [n for n in ast.walk(t.tree) if isinstance(n, (ast.ListComp, ast.GeneratorExp, ast.SetComp)) and isinstance(n.elt, ast.Call)
+                         and any(isinstance(x, ast.Name) and x.id == nv for g in n.generators for x in ast.walk(g.target))]
+            if comp_bind and rule == 'R7-name-binding':
+                ctx.violation(rule, t.func, 'loop block template at line %d: %s' % (t.lineno, unparse(comp_bind[0])[:100]),
+                              'the fields of a run are packed / parsed inside a comprehension that binds %s: a comprehension has its own scope, so the handlers of the generated driver still see the %s of an earlier block (or none at all) and the PacketError names the wrong field' % (nv, nv),
+                              t.lineno, witness=True)
+                return None
             ctx.undecided(rule, t.func, 'loop block template at line %d' % t.lineno, 'shape not recognised: %s' % t.holed.strip()[:120], t.lineno)
             return None
     # the two per-field generators merged / the templates kept in named constants: the loop block of
